@@ -191,3 +191,92 @@ CONTRACTS = {
 GROUND = []
 BOUNDED = []
 CLASSES = {}
+
+
+# ---------------------------------------------------------------- bounded: glue with stretch / shrink components (3 fil orders, every unit)
+FILS = ['fil', 'fill', 'filll']
+
+
+def gen_glue(rng):
+    def comp(allow_fil):
+        neg = rng.random() < 0.2
+        num = rng.choice(['1', '2', '0.5', '3', '1.5', '10', '0'])
+        unit = rng.choice(FILS if (allow_fil and rng.random() < 0.6) else sorted(UNITS))
+        kw = rng.choice([unit, unit, unit.upper(), unit.capitalize()])
+        return dict(neg=neg, num=num, unit=unit, text=('-' if neg else '') + num + rng.choice(['', ' ']) + kw)
+    base = comp(False)
+    plus = comp(True) if rng.random() < 0.7 else None
+    minus = comp(True) if rng.random() < 0.6 else None
+    src = base['text']
+    if plus:
+        src += rng.choice([' plus ', ' PLUS ', 'plus', ' plus']) + plus['text']
+    if minus:
+        src += rng.choice([' minus ', ' Minus ', 'minus', ' minus']) + minus['text']
+    tail = rng.choice([' Z', '\\relax Z', ' \\relax'])
+    return dict(base=base, plus=plus, minus=minus, src=src + tail, tail=tail, text=src + tail)
+
+
+def _decode(x):
+    """(coefficient, order) of a plasTeX dimen as its own `source` prints it: '<number><unit>' with unit pt / fil / fill / filll"""
+    import re
+    m = re.fullmatch(r'(-?[0-9.]+(?:e[-+]?[0-9]+)?)(pt|fil|fill|filll)', x.source)
+    if not m:
+        return None
+    return float(m.group(1)), m.group(2)
+
+
+def check_glue(w):
+    t = fresh(w['src'])
+    try:
+        g = t.readGlue()
+    except Exception as e:
+        return False, 'readGlue(%r) raised %s: %s' % (w['src'], type(e).__name__, e)
+    r = rest(t)
+    exp_rest = w['tail'][1:] if w['tail'].startswith(' ') else w['tail']
+    exp_rest = exp_rest.replace('\\relax', 'relax').replace(' ', '') if False else exp_rest
+    got_rest = r
+    # rest(t) prints tokens by their characters: a control word loses its backslash and the blank after it
+    norm = lambda s: s.replace('\\', '').replace(' ', '')
+    if norm(got_rest) != norm(exp_rest):
+        return False, 'after readGlue(%r) the stream holds %r, expected %r' % (w['src'], got_rest, exp_rest)
+    if ParameterCommand._enablelevel != 0:
+        return False, 'readGlue(%r) left the parameter switch at level %r' % (w['src'], ParameterCommand._enablelevel)
+
+    def expect(c):
+        v = (-1 if c['neg'] else 1) * float(c['num'])
+        if c['unit'] in FILS:
+            return v, c['unit']
+        return v * UNITS[c['unit']], 'pt'
+    for name, comp, got in (('natural size', w['base'], plasTeX.dimen(float(g))), ('stretch', w['plus'], g.stretch), ('shrink', w['minus'], g.shrink)):
+        if comp is None:
+            if got is not None and name != 'natural size':
+                return False, 'readGlue(%r): %s is %r, expected none' % (w['src'], name, got.source)
+            continue
+        if got is None:
+            return False, 'readGlue(%r): %s missing' % (w['src'], name)
+        d = _decode(got)
+        ev, eu = expect(comp)
+        if d is None or d[1] != eu or abs(d[0] - ev) > max(1e-3, abs(ev) * 1e-4):
+            return False, 'readGlue(%r): %s is %s, TeX reads %s%s' % (w['src'], name, got.source, ev, eu)
+    return True, ''
+
+
+def bounded_glue(budget, rng):
+    t0, n, seen, samples = time.time(), 0, set(), []
+    while time.time() - t0 < budget or n < 300:
+        w = gen_glue(rng)
+        n += 1
+        if w['src'] not in seen:
+            seen.add(w['src'])
+            if len(samples) < 3:
+                samples.append(w['src'])
+        ok, d = check_glue(w)
+        if not ok:
+            return False, n, d, dict(text=w['src'])
+    return True, n, '', None, dict(distinct=len(seen), samples=samples, rule='random glue specifications of the grammar (see bound); distinct = source not seen before')
+
+
+BOUNDED.append(('bounded/glue', 'readGlue returns the natural size, stretch and shrink TeX reads (coefficient and fil order / unit of each component), consumes exactly the '
+                'specification (and one optional blank) and leaves the parameter switch balanced',
+                'random glue: <dimen> [plus <dimen | fil | fill | filll>] [minus ...], coefficients 0 / 0.5 / 1 / 1.5 / 2 / 3 / 10 with optional sign, 9 physical units and '
+                'the 3 fil orders, keywords in lower / upper / capitalised form, with and without blanks, followed by a letter or \\relax', bounded_glue))
